@@ -255,9 +255,19 @@ class InternalRunAdapter(ABC):
         tasks = all_tasks(all_named)
         if not tasks:
             return WaitForNextTaskResult(None, started)
-        done, _ = await asyncio.wait(
-            tasks, timeout=timeout, return_when=asyncio.FIRST_COMPLETED
-        )
+        try:
+            done, _ = await asyncio.wait(
+                tasks, timeout=timeout, return_when=asyncio.FIRST_COMPLETED
+            )
+        except asyncio.CancelledError:
+            # The run was cancelled before `started` could be handed back to the
+            # control loop, so nobody else can stop these tasks: cancel them here
+            # rather than leaving their steps running after the run has ended.
+            for nt in started:
+                nt.task.cancel()
+            if started:
+                await asyncio.wait([nt.task for nt in started], timeout=0.5)
+            raise
         completed = pick_highest_priority(all_named, done) if done else None
         return WaitForNextTaskResult(completed, started)
 
